@@ -954,6 +954,16 @@ func init() {
 			return totalD("glyf", Fields{"bytes": hx(glyf), "loca": hx(loca), "fmt": f["fmt"]})
 		case "ext-chain": // extension records naming the extension type again: Read refuses, or Apply must not panic
 			return totalLookuplistApply(f["table"], totalExtChain(f["table"], f.Int("levels")), []int{1, 2, 3})
+		case "cov-count": // count vs coverage disagreement: never panics (decoder, re-encoding, Apply on covered glyphs)
+			sub := totalCovCount(f["table"], f.Int("type"), f.Int("fmt"), f.Int("cov"), f.Int("count"), f["side"])
+			if sub == nil {
+				return "bad-case"
+			}
+			b := totalGtabWrap(f.Int("type"), sub)
+			if r := totalD(f["table"], Fields{"bytes": hx(b), "acc": f["acc"], "strict": f["strict"]}); r != "total" {
+				return r
+			}
+			return totalLookuplistApply(f["table"], b, []int{101, 1, 102, 2, 1, 2, 3, 103, 3, 4})
 		case "hmtx-extreme": // numberOfHMetrics vs table length
 			return totalD("hmtx", Fields{"bytes": hx(make([]byte, f.Int("len"))), "hhea": hx(totalHheaFor(f.Int("hmetrics")))})
 		case "cff-charset", "cff-fdselect": // sub-structure readers through the C13 hooks; n = glyph count
@@ -2500,6 +2510,119 @@ func totalMiniCFFCharset(id, n int) []byte {
 	return b
 }
 
+// totalCovCount: "count vs coverage disagreement": an otherwise valid GSUB/GPOS subtable of lookup type
+// typ / format fm whose coverage table lists `cov` glyphs (1..cov; bases/ligatures/mark2 101..) while the
+// counted array paired with it has `count` elements, every offset in range (the elements share one
+// well-formed target).  side = "mark" | "base" selects the pair of a mark-attachment subtable.
+func totalCovCount(table string, typ, fm, cov, count int, side string) []byte {
+	w := totalBe16b
+	covTab := func(first, n int) []byte {
+		b := append([]byte{0, 1}, w(n)...)
+		for i := 0; i < n; i++ {
+			b = append(b, w(first+i)...)
+		}
+		return b
+	}
+	classDef := func(n int) []byte { // glyphs 1..n, classes 0..n-1
+		b := append([]byte{0, 1, 0, 1}, w(n)...)
+		for i := 0; i < n; i++ {
+			b = append(b, w(i)...)
+		}
+		return b
+	}
+	rep := func(n, v int) []byte {
+		var b []byte
+		for i := 0; i < n; i++ {
+			b = append(b, w(v)...)
+		}
+		return b
+	}
+	cat := func(parts ...[]byte) []byte {
+		var b []byte
+		for _, p := range parts {
+			b = append(b, p...)
+		}
+		return b
+	}
+	anchor := []byte{0, 1, 0, 5, 0, 7}
+	key := fmt.Sprintf("%s%d.%d", table, typ, fm)
+	// simple shape: header(hl bytes incl. count) | offsets/values | shared target | coverage [| classdef]
+	simple := func(head func(covOff, extra int) []byte, hl, per int, target []byte, perVal func(h int) []byte, ncd int) []byte {
+		h := hl + per*count
+		covOff := h + len(target)
+		b := head(covOff, covOff+4+2*cov)
+		b = append(b, w(count)...)
+		for i := 0; i < count; i++ {
+			b = append(b, perVal(h)...)
+		}
+		b = append(b, target...)
+		b = append(b, covTab(1, cov)...)
+		if ncd > 0 {
+			b = append(b, classDef(cov)...)
+		}
+		return b
+	}
+	offTo := func(h int) []byte { return w(h) }
+	switch key {
+	case "gsub1.2":
+		return simple(func(c, _ int) []byte { return cat([]byte{0, 2}, w(c)) }, 6, 2, nil, func(int) []byte { return w(40) }, 0)
+	case "gsub2.1", "gsub3.1":
+		return simple(func(c, _ int) []byte { return cat([]byte{0, 1}, w(c)) }, 6, 2, []byte{0, 1, 0, 40}, offTo, 0)
+	case "gsub4.1":
+		return simple(func(c, _ int) []byte { return cat([]byte{0, 1}, w(c)) }, 6, 2, []byte{0, 1, 0, 4, 0, 40, 0, 2, 0, 2}, offTo, 0)
+	case "gpos1.2":
+		return simple(func(c, _ int) []byte { return cat([]byte{0, 2}, w(c), w(4)) }, 8, 2, nil, func(int) []byte { return w(10) }, 0)
+	case "gpos2.1":
+		return simple(func(c, _ int) []byte { return cat([]byte{0, 1}, w(c), w(4), w(0)) }, 10, 2, []byte{0, 1, 0, 2, 0, 10}, offTo, 0)
+	case "gpos3.1":
+		return simple(func(c, _ int) []byte { return cat([]byte{0, 1}, w(c)) }, 6, 4, anchor, func(h int) []byte { return cat(w(h), w(h)) }, 0)
+	case "gsub5.1", "gpos7.1":
+		return simple(func(c, _ int) []byte { return cat([]byte{0, 1}, w(c)) }, 6, 2, []byte{0, 1, 0, 4, 0, 2, 0, 0, 0, 2}, offTo, 0)
+	case "gsub5.2", "gpos7.2":
+		return simple(func(c, cd int) []byte { return cat([]byte{0, 2}, w(c), w(cd)) }, 8, 2, []byte{0, 1, 0, 4, 0, 2, 0, 0, 0, 1}, offTo, 1)
+	case "gsub6.1", "gpos8.1":
+		return simple(func(c, _ int) []byte { return cat([]byte{0, 1}, w(c)) }, 6, 2, []byte{0, 1, 0, 4, 0, 0, 0, 2, 0, 2, 0, 0, 0, 0}, offTo, 0)
+	case "gsub6.2", "gpos8.2":
+		return simple(func(c, cd int) []byte { return cat([]byte{0, 2}, w(c), w(cd), w(cd), w(cd)) }, 12, 2, []byte{0, 1, 0, 4, 0, 0, 0, 2, 0, 1, 0, 0, 0, 0}, offTo, 1)
+	case "gpos4.1", "gpos5.1", "gpos6.1":
+		const classes = 2
+		mc, mn, bc, bn := 2, 2, 2, 2 // coverage sizes / counted sizes of the mark and the base side
+		if side == "mark" {
+			mc, mn = cov, count
+		} else {
+			bc, bn = cov, count
+		}
+		markCov, baseCov := covTab(1, mc), covTab(101, bc)
+		markArr := w(mn)
+		for i := 0; i < mn; i++ {
+			markArr = cat(markArr, w(i%classes), w(2+4*mn))
+		}
+		markArr = append(markArr, anchor...)
+		var baseArr []byte
+		if typ == 5 { // LigatureArray → one shared LigatureAttach with one component
+			baseArr = cat(w(bn), rep(bn, 2+2*bn), w(1), rep(classes, 2+2*classes), anchor)
+		} else {
+			baseArr = cat(w(bn), rep(bn*classes, 2+2*bn*classes), anchor)
+		}
+		o1 := 12
+		o2 := o1 + len(markCov)
+		o3 := o2 + len(baseCov)
+		o4 := o3 + len(markArr)
+		if o4+len(baseArr) > 0xFFFF {
+			return nil
+		}
+		return cat([]byte{0, 1}, w(o1), w(o2), w(classes), w(o3), w(o4), markCov, baseCov, markArr, baseArr)
+	}
+	return nil
+}
+
+// totalCovCountTypes: the subtable types that pair a coverage table with a counted array.
+var totalCovCountTypes = []string{
+	"gsub 1 2", "gsub 2 1", "gsub 3 1", "gsub 4 1", "gsub 5 1", "gsub 5 2", "gsub 6 1", "gsub 6 2",
+	"gpos 1 2", "gpos 2 1", "gpos 3 1", "gpos 4 1 mark", "gpos 4 1 base", "gpos 5 1 mark", "gpos 5 1 base",
+	"gpos 6 1 mark", "gpos 6 1 base", "gpos 7 1", "gpos 7 2", "gpos 8 1", "gpos 8 2",
+}
+
 // ---------------------------------------------------------------- mutations
 
 func totalMutate(r *Rng, b []byte) ([]byte, string) {
@@ -3287,6 +3410,17 @@ func areaTotal(c *Ctx) {
 	adv("kind=gpos21-alias k=20 acc=0")
 	adv("kind=chain3-alias k=1 acc=0")
 	adv("kind=gpos51-alias n=1 acc=0")
+	// count vs coverage disagreement for every subtable type pairing a coverage table with a counted array
+	for _, t := range totalCovCountTypes {
+		p := strings.Fields(t)
+		side := ""
+		if len(p) > 3 {
+			side = " side=" + p[3]
+		}
+		for _, cc := range [][2]int{{3, 3}, {3, 4}, {3, 60}, {3, 2}, {3, 0}, {1, 3}, {40, 41}} {
+			adv(fmt.Sprintf("kind=cov-count table=%s type=%s fmt=%s cov=%d count=%d%s", p[0], p[1], p[2], cc[0], cc[1], side))
+		}
+	}
 	// extension lookups whose record names the extension type again (one and two levels), GSUB and GPOS
 	for _, tb := range []string{"gsub", "gpos"} {
 		for lv := 0; lv <= 2; lv++ {
